@@ -1,6 +1,6 @@
 (* C25 -- csr_matmat, part 1: generic lemmas (accumulating loops, discovery lists, sums over
    a commutative monoid, the algebra behind the entry equation). *)
-From SE Require Export C25.CsrProofs.
+From SE Require Export C25.CsrFromCoo2.
 From Coq Require Import Sorted.
 Local Open Scope N_scope.
 Local Open Scope res_scope.
@@ -67,12 +67,6 @@ Proof.
   intros Hk Hn. unfold resizeN, nthN, lenN in *.
   rewrite app_nth1 by (rewrite firstn_length; lia). apply nth_firstn'. lia.
 Qed.
-
-Lemma lenN_cons {A} (a : A) l : lenN (a :: l) = lenN l + 1.
-Proof. unfold lenN; cbn [length]; lia. Qed.
-
-Lemma lenN_nil {A} : lenN (@nil A) = 0.
-Proof. reflexivity. Qed.
 
 Lemma lenN_length {A} (l : list A) : N.of_nat (length l) = lenN l.
 Proof. reflexivity. Qed.
@@ -197,9 +191,6 @@ Qed.
 (* ---------- lookup ---------- *)
 Lemma lookup_nil c : lookup c [] = zero.
 Proof. reflexivity. Qed.
-
-Lemma lookup_cons c x l : lookup c (x :: l) = if fst x =? c then snd x else lookup c l.
-Proof. unfold CsrSpec.lookup. cbn [find]. destruct (fst x =? c); reflexivity. Qed.
 
 Lemma lookup_notin c l : ~ In c (map fst l) -> lookup c l = zero.
 Proof.
